@@ -176,7 +176,9 @@ pub fn run() -> i32 {
     // the planted literal inside a MANDATORY optional (minimum >= 1) of the rule: an optional that has to be taken at least once requires its
     // segment just as a bare item does. All sequences of 1..3 environment items over {(ɮ,1:2), (ɮ t,2:3), (ɮ,1:), (t ɮ,1:1), #, $, C, (C)} that
     // contain one of the mandatory ones, after and before the underline, for insertion / substitution / deletion
-    let opt_items = ["(ɮ,1:2)", "(ɮ t,2:3)", "(ɮ,1:)", "(t ɮ,1:1)", "#", "$", "C", "(C)"];
+    let opt_items = ["(ɮ,1:2)", "(ɮ t,2:3)", "(ɮ,1:)", "(t ɮ,1:1)", "#", "$", "C", "(C)",
+        // a bare literal behind a set whose alternatives overlap or are zero-width: every alternative is tried, none of them lets the literal be skipped
+        "ɮ", "{a, V}", "{V, a}", "{$, t}", "{C, t}"];
     let mut opt_rules: Vec<String> = vec![];
     for a in 0..opt_items.len() { for b in 0..=opt_items.len() { for c in 0..=opt_items.len() {
         if b == opt_items.len() && c != opt_items.len() { continue; }
@@ -184,6 +186,7 @@ pub fn run() -> i32 {
         if !seq.iter().any(|x| x.contains('ɮ')) { continue; }
         // `#` only at the outer end of a side
         if seq.iter().enumerate().any(|(i, x)| *x == "#" && i + 1 != seq.len()) { continue; }
+        if seq.iter().filter(|x| x.starts_with('{')).count() > 1 { continue; }
         let after = seq.join(" "); let before: String = seq.iter().rev().map(|x| match *x { "(ɮ t,2:3)" => "(t ɮ,2:3)", "(t ɮ,1:1)" => "(ɮ t,1:1)", y => y }).collect::<Vec<_>>().join(" ");
         for (lhs, rhs) in [("*", "e"), ("*", "⟨ta⟩"), ("a", "e"), ("a", "*"), ("V", "[+nasal]")] {
             opt_rules.push(format!("{} > {} / _ {}", lhs, rhs, after));
